@@ -1,4 +1,5 @@
 import BarterModel.Lemmas.Book
+import BarterModel.Lemmas.Review2_C05
 import BarterModel.Lemmas.KernelsAgree.Book
 /-!
 # C05 — the local L2 order book equals a price → amount map after any event sequence
@@ -238,5 +239,263 @@ theorem kernels_agree_with_source :
     ∧ (∀ l, BarterModel.KernelsAgree.levelTo (BarterModel.KernelsAgree.levelOf l) = l)
     ∧ (∀ l, BarterModel.KernelsAgree.levelOf (BarterModel.KernelsAgree.levelTo l) = l) :=
   BarterModel.KernelsAgree.book_kernels_agree
+
+/-! ## Review 2 (audit/report_C01-C05.md, section C05): the side lemma that makes the
+`volume_weighed_mid_price` clause non-vacuous, history versions of the single-state lemmas,
+`delete_absent_noop` under its minimal hypothesis, and witnesses of the excluded snapshots -/
+
+/-! ### volume-weighted mid-price: a genuine quotient when the total amount is non-zero -/
+
+/-- Side lemma for the `volume_weighed_mid_price` clause (review C05-F2). `Rat` division is total
+(`x / 0 = 0`), `Decimal` division panics (`books/mod.rs:310-311`), so the equalities of
+`refines_spec` say something about the code only where the divisor is non-zero. This theorem states
+the value explicitly: for ANY book whose best bid is `bb` and best ask is `ba` with
+`bb.amount + ba.amount ≠ 0`, the result is the documented quotient
+`(bidPrice·askAmount + askPrice·bidAmount) / (bidAmount + askAmount)` and it is the genuine
+quotient — the unique `v` with `v · (bidAmount + askAmount) = bidPrice·askAmount + askPrice·bidAmount`
+(the last conjunct is false for the totalised `x / 0 = 0` unless the numerator vanishes). -/
+theorem vwmid_is_documented_quotient {b : OrderBook} {bb ba : Level}
+    (hb : b.bids.head? = some bb) (ha : b.asks.head? = some ba) (hne : bb.amount + ba.amount ≠ 0) :
+    b.volumeWeightedMidPrice =
+      some ((bb.price * ba.amount + ba.price * bb.amount) / (bb.amount + ba.amount)) ∧
+    (bb.price * ba.amount + ba.price * bb.amount) / (bb.amount + ba.amount) * (bb.amount + ba.amount)
+      = bb.price * ba.amount + ba.price * bb.amount ∧
+    ∀ v : Rat, v * (bb.amount + ba.amount) = bb.price * ba.amount + ba.price * bb.amount →
+      b.volumeWeightedMidPrice = some v := by
+  have h0 : b.volumeWeightedMidPrice =
+      some ((bb.price * ba.amount + ba.price * bb.amount) / (bb.amount + ba.amount)) := by
+    simp only [OrderBook.volumeWeightedMidPrice, hb, ha, Book.volumeWeightedMidPrice]
+  refine ⟨h0, Rat.div_mul_cancel hne, fun v hv => ?_⟩
+  rw [h0, ← hv, Rat.mul_div_cancel hne]
+
+/-- Sufficient condition, single state: on a book satisfying the invariant whose stored amounts are
+all `≥ 0` (hence `> 0`), the divisor of the volume-weighted mid-price is non-zero (indeed positive),
+so `Rat`'s `x / 0 = 0` is never used and the `Decimal` division does not panic on a zero divisor.
+Review C05-F2 (`vw_divisor_ne_zero` of the reviewer's `C05_c.lean`). -/
+theorem vwmid_divisor_ne_zero {b : OrderBook} (hw : WFBook b)
+    (hnb : ∀ l ∈ b.bids, 0 ≤ l.amount) (hna : ∀ l ∈ b.asks, 0 ≤ l.amount)
+    {bb ba : Level} (hb : b.bids.head? = some bb) (ha : b.asks.head? = some ba) :
+    0 < bb.amount + ba.amount ∧ bb.amount + ba.amount ≠ 0 := by
+  have m1 : bb ∈ b.bids := List.mem_of_head? hb
+  have m2 : ba ∈ b.asks := List.mem_of_head? ha
+  have := hw.bidsNonZero bb m1
+  have := hw.asksNonZero ba m2
+  have := hnb bb m1
+  have := hna ba m2
+  constructor <;> grind
+
+/-- every level carried by every event of the history (snapshot levels and update levels, both
+sides) has an amount `≥ 0`; zero amounts (deletes) are allowed in updates -/
+def NonNegEvents (evs : List Event) : Prop := ∀ ev ∈ evs, ev.NonNeg
+
+/-- Sufficient condition, history version: after ANY history from the default book whose snapshots
+are well-formed and whose levels all carry amounts `≥ 0` (what a venue sends: an amount is a
+quantity; `0` = delete), every stored amount is strictly positive. -/
+theorem amounts_positive_history (evs : List Event) (h : WFEvents evs) (hn : NonNegEvents evs) :
+    (∀ l ∈ (OrderBook.default.run evs).bids, 0 < l.amount) ∧
+    (∀ l ∈ (OrderBook.default.run evs).asks, 0 < l.amount) :=
+  let hp := posBook_run posBook_default hn h
+  ⟨hp.bids, hp.asks⟩
+
+/-- The `volume_weighed_mid_price` clause, non-vacuous, for all such histories: when both sides are
+non-empty the divisor is positive and the value is the genuine documented quotient of the best
+levels (which are the map's best levels, `best_bid_is_max_history` / `best_ask_is_min_history`).
+Review C05-F2. -/
+theorem vwmid_history (evs : List Event) (h : WFEvents evs) (hn : NonNegEvents evs) {bb ba : Level}
+    (hb : (OrderBook.default.run evs).bids.head? = some bb)
+    (ha : (OrderBook.default.run evs).asks.head? = some ba) :
+    0 < bb.amount + ba.amount ∧
+    (OrderBook.default.run evs).volumeWeightedMidPrice =
+      some ((bb.price * ba.amount + ba.price * bb.amount) / (bb.amount + ba.amount)) ∧
+    (bb.price * ba.amount + ba.price * bb.amount) / (bb.amount + ba.amount) * (bb.amount + ba.amount)
+      = bb.price * ba.amount + ba.price * bb.amount := by
+  obtain ⟨h1, h2⟩ := amounts_positive_history evs h hn
+  have hd := vwmid_divisor_ne_zero (inv_from_default evs h)
+    (fun l hl => Rat.le_of_lt (h1 l hl)) (fun l hl => Rat.le_of_lt (h2 l hl)) hb ha
+  obtain ⟨q1, q2, _⟩ := vwmid_is_documented_quotient hb ha hd.2
+  exact ⟨hd.1, q1, q2⟩
+
+/-- **Witness of the zero-divisor point** (review C05-F2): best bid `100:1`, best ask `101:-1`
+(negative amounts are storable: `upsert_single` only tests `is_zero()`), reached by a single
+`Update` from the default book (no snapshot, so `WFEvents` holds vacuously) or by a well-formed
+snapshot. The total amount is `0`; the Lean model answers `some 0` (`Rat`: `x / 0 = 0`) and so does
+the specification, hence `refines_spec` holds — while the code panics on the `Decimal` division
+(`books/mod.rs:310-311`). Outside `NonNegEvents`; inside, `vwmid_history` applies. -/
+theorem vwmid_zero_divisor_witness :
+    WFEvents [.update ⟨1, [⟨100, 1⟩], [⟨101, -1⟩]⟩] ∧
+    (OrderBook.default.run [.update ⟨1, [⟨100, 1⟩], [⟨101, -1⟩]⟩]).bids = [⟨100, 1⟩] ∧
+    (OrderBook.default.run [.update ⟨1, [⟨100, 1⟩], [⟨101, -1⟩]⟩]).asks = [⟨101, -1⟩] ∧
+    (1 : Rat) + (-1) = 0 ∧
+    (OrderBook.default.run [.update ⟨1, [⟨100, 1⟩], [⟨101, -1⟩]⟩]).volumeWeightedMidPrice = some 0 ∧
+    (Spec.init.run [.update ⟨1, [⟨100, 1⟩], [⟨101, -1⟩]⟩]).volumeWeightedMidPrice = some 0 ∧
+    WFBook ⟨1, [⟨100, 1⟩], [⟨101, -1⟩]⟩ ∧
+    (OrderBook.default.run [.snapshot ⟨1, [⟨100, 1⟩], [⟨101, -1⟩]⟩]).volumeWeightedMidPrice = some 0 := by
+  refine ⟨?_, by decide +kernel, by decide +kernel, by decide +kernel, by decide +kernel,
+    by decide +kernel, ?_, by decide +kernel⟩
+  · intro sn h
+    simp only [List.mem_cons, reduceCtorEq, List.not_mem_nil, or_false] at h
+  · refine { bids := ?_, asks := ?_, bidsNonZero := ?_, asksNonZero := ?_ } <;> decide +kernel
+
+/-! ### history versions of the single-state lemmas -/
+
+/-- `best_bid_is_max` for histories (review C05 LOW): after any history of well-formed snapshots and
+unrestricted updates from the default book, the first stored bid is the highest-priced point of the
+support of the abstract bid map (the fold of the events), with the map's amount. -/
+theorem best_bid_is_max_history (evs : List Event) (h : WFEvents evs) (l : Level)
+    (hl : (OrderBook.default.run evs).bids.head? = some l) :
+    ((absBook OrderBook.default).run evs).bids l.price = l.amount ∧ l.amount ≠ 0 ∧
+    ∀ q, ((absBook OrderBook.default).run evs).bids q ≠ 0 → q ≤ l.price := by
+  have hr := abs_run (b := OrderBook.default) wfBook_default.toSortedBook evs
+    (fun sn hs => (h sn hs).toSortedBook)
+  rw [← hr]
+  exact best_bid_is_max (inv_from_default evs h) l hl
+
+/-- `best_ask_is_min` for histories (review C05 LOW): the first stored ask is the lowest-priced point
+of the support of the abstract ask map after the same events, with the map's amount. -/
+theorem best_ask_is_min_history (evs : List Event) (h : WFEvents evs) (l : Level)
+    (hl : (OrderBook.default.run evs).asks.head? = some l) :
+    ((absBook OrderBook.default).run evs).asks l.price = l.amount ∧ l.amount ≠ 0 ∧
+    ∀ q, ((absBook OrderBook.default).run evs).asks q ≠ 0 → l.price ≤ q := by
+  have hr := abs_run (b := OrderBook.default) wfBook_default.toSortedBook evs
+    (fun sn hs => (h sn hs).toSortedBook)
+  rw [← hr]
+  exact best_ask_is_min (inv_from_default evs h) l hl
+
+/-- `no_best_iff_empty` for histories: a side of the book has no best level exactly when the abstract
+map of that side is empty after the same events. -/
+theorem no_best_iff_empty_history (evs : List Event) (h : WFEvents evs) :
+    ((OrderBook.default.run evs).bids.head? = none ↔
+      ∀ q, ((absBook OrderBook.default).run evs).bids q = 0) ∧
+    ((OrderBook.default.run evs).asks.head? = none ↔
+      ∀ q, ((absBook OrderBook.default).run evs).asks q = 0) := by
+  have hr := abs_run (b := OrderBook.default) wfBook_default.toSortedBook evs
+    (fun sn hs => (h sn hs).toSortedBook)
+  rw [← hr]
+  exact no_best_iff_empty (inv_from_default evs h)
+
+/-- `strictly_ordered` for histories (needs ordered snapshots only): after any such history bids are
+strictly descending, asks strictly ascending, and no price appears twice on a side. -/
+theorem strictly_ordered_history (evs : List Event) (h : SortedEvents evs) :
+    let b := OrderBook.default.run evs
+    (∀ i j (hi : i < j) (hj : j < b.bids.length), b.bids[j].price < b.bids[i].price) ∧
+    (∀ i j (hi : i < j) (hj : j < b.asks.length), b.asks[i].price < b.asks[j].price) ∧
+    (b.bids.map Level.price).Nodup ∧ (b.asks.map Level.price).Nodup :=
+  strictly_ordered (sorted_inv wfBook_default.toSortedBook evs h)
+
+/-- `snapshot_depth` for histories: after any history with well-formed snapshots, `snapshot(d)` is
+the first `d` levels of each side with the same sequence, and is well-formed. -/
+theorem snapshot_depth_history (evs : List Event) (h : WFEvents evs) (d : Nat) :
+    let b := OrderBook.default.run evs
+    b.snapshot d = ⟨b.sequence, b.bids.take d, b.asks.take d⟩ ∧ WFBook (b.snapshot d) :=
+  snapshot_depth (inv_from_default evs h) d
+
+/-! ### deleting an absent level, minimal hypothesis -/
+
+/-- `delete_absent_noop` with NO hypothesis on the stored list (review C05 LOW): for every list —
+unordered, with duplicate prices, with zero amounts — an upsert with amount zero of a price that no
+stored level carries leaves the list unchanged (scenario 2a of `upsert_single`,
+`books/mod.rs:238-245`: `binary_search_by` returns `Ok` only on an `Equal` comparison). Implies
+`delete_absent_noop`, which additionally assumed `Sorted` and `NonZero`. -/
+theorem delete_absent_noop' (s : Side) (ls : List Level) (new : Level)
+    (hzero : new.amount = 0) (habsent : ∀ l ∈ ls, l.price ≠ new.price) :
+    upsertSingle s new ls = ls := upsertSingle_delete_absent s ls new hzero habsent
+
+/-- The same for a whole update list consisting of deletes of absent prices only. -/
+theorem delete_absent_noop_list (s : Side) (ls us : List Level)
+    (hzero : ∀ u ∈ us, u.amount = 0) (habsent : ∀ u ∈ us, ∀ l ∈ ls, l.price ≠ u.price) :
+    upsert s ls us = ls := by
+  unfold upsert
+  induction us with
+  | nil => rfl
+  | cons u us ih =>
+    simp only [List.foldl_cons]
+    rw [upsertSingle_delete_absent s ls u (hzero u (by simp)) (habsent u (by simp))]
+    exact ih (fun v hv => hzero v (by simp [hv])) (fun v hv => habsent v (by simp [hv]))
+
+/-! ### the excluded snapshots, made visible -/
+
+/-- **Witness: snapshot with a duplicate price** (review C05-F1). `WFEvents` — every `Snapshot`
+payload strictly ordered and free of zero amounts — is a documented PRECONDITION, not something the
+code establishes: the only producer of snapshots is the Binance HTTP depth snapshot, which goes
+unvalidated into `OrderBook::new` (`exchange/binance/book/l2.rs:84`), and the constructor only sorts
+(`sort_unstable_by`, `books/mod.rs:148-157`): no dedup, no zero filter. For the history
+`[Snapshot ⟨1, bids [100:1, 100:2], asks []⟩, Update ⟨2, bids [100:0], asks []⟩]` (the snapshot is
+what `OrderBook::new` stores for these levels; it is outside `WFEvents`): after the snapshot the
+price 100 appears twice; after the delete of 100 the model's bids are `[100:2]`, while the
+price → amount map is empty at 100 (function spec and executable spec alike): "holds exactly the
+levels of the map" is false here. (Which of two equal-priced levels a binary search hits is
+unspecified in Rust, so code and model may also differ at this point.) -/
+theorem dirty_snapshot_duplicate_price_witness :
+    OrderBook.new 1 [⟨100, 1⟩, ⟨100, 2⟩] [] = ⟨1, [⟨100, 1⟩, ⟨100, 2⟩], []⟩ ∧
+    ¬ WFEvents [.snapshot ⟨1, [⟨100, 1⟩, ⟨100, 2⟩], []⟩, .update ⟨2, [⟨100, 0⟩], []⟩] ∧
+    ¬ ((OrderBook.default.run [.snapshot ⟨1, [⟨100, 1⟩, ⟨100, 2⟩], []⟩]).bids.map
+        Level.price).Nodup ∧
+    (OrderBook.default.run [.snapshot ⟨1, [⟨100, 1⟩, ⟨100, 2⟩], []⟩,
+        .update ⟨2, [⟨100, 0⟩], []⟩]).bids = [⟨100, 2⟩] ∧
+    ((absBook OrderBook.default).run [.snapshot ⟨1, [⟨100, 1⟩, ⟨100, 2⟩], []⟩,
+        .update ⟨2, [⟨100, 0⟩], []⟩]).bids 100 = 0 ∧
+    (Spec.init.run [.snapshot ⟨1, [⟨100, 1⟩, ⟨100, 2⟩], []⟩,
+        .update ⟨2, [⟨100, 0⟩], []⟩]).book.bids = [] := by
+  refine ⟨new_of_pairwise_le (by decide +kernel) (by decide +kernel), ?_, by decide +kernel,
+    by decide +kernel, by decide +kernel, by decide +kernel⟩
+  intro h
+  have hw := h _ (List.mem_cons_self)
+  have : ¬ Sorted .bids [⟨100, 1⟩, ⟨100, 2⟩] := by decide +kernel
+  exact this hw.bids
+
+/-- **Witness: snapshot with a zero amount** (review C05-F1; same precondition as
+`dirty_snapshot_duplicate_price_witness`). For the history `[Snapshot ⟨1, bids [], asks [101:0]⟩]`
+(outside `WFEvents`): the model's asks are `[101:0]` — a stored zero amount —, `mid_price` is
+`some 101`, while the price → amount map has no level at 101 (amount 0 = absent), i.e. the ask map
+is empty and the map's mid-price is `none`. The executable `Spec` keeps the zero entry on a snapshot
+(`PMap.ofLevels levels = levels`), so it agrees with the model here: a model-vs-spec run cannot flag
+this point; only the function spec `FBook` shows the deviation. -/
+theorem dirty_snapshot_zero_amount_witness :
+    OrderBook.new 1 [] [⟨101, 0⟩] = ⟨1, [], [⟨101, 0⟩]⟩ ∧
+    ¬ WFEvents [.snapshot ⟨1, [], [⟨101, 0⟩]⟩] ∧
+    (OrderBook.default.run [.snapshot ⟨1, [], [⟨101, 0⟩]⟩]).asks = [⟨101, 0⟩] ∧
+    (OrderBook.default.run [.snapshot ⟨1, [], [⟨101, 0⟩]⟩]).midPrice = some 101 ∧
+    (∀ q, ((absBook OrderBook.default).run [.snapshot ⟨1, [], [⟨101, 0⟩]⟩]).asks q = 0) ∧
+    (Spec.init.run [.snapshot ⟨1, [], [⟨101, 0⟩]⟩]).book.asks = [⟨101, 0⟩] ∧
+    (Spec.init.run [.snapshot ⟨1, [], [⟨101, 0⟩]⟩]).midPrice = some 101 := by
+  refine ⟨new_of_pairwise_le (by decide +kernel) (by decide +kernel), ?_, by decide +kernel,
+    by decide +kernel, ?_, by decide +kernel, by decide +kernel⟩
+  · intro h
+    have hw := h _ (List.mem_cons_self)
+    exact hw.asksNonZero ⟨101, 0⟩ (List.mem_cons_self) rfl
+  · intro q
+    show abs [⟨101, 0⟩] q = 0
+    simp only [abs]
+    split <;> rfl
+
+/-- Both excluded snapshot shapes at once (the name the review asked for): a duplicate price and a
+zero amount in a `Snapshot` payload each make the book differ from the price → amount map; both
+histories are outside `WFEvents`, the documented precondition of `inv`, `holds_exactly`,
+`refines_spec`. Review C05-F1. -/
+theorem dirty_snapshot_witness :
+    ((OrderBook.default.run [.snapshot ⟨1, [⟨100, 1⟩, ⟨100, 2⟩], []⟩,
+        .update ⟨2, [⟨100, 0⟩], []⟩]).bids = [⟨100, 2⟩] ∧
+      ((absBook OrderBook.default).run [.snapshot ⟨1, [⟨100, 1⟩, ⟨100, 2⟩], []⟩,
+        .update ⟨2, [⟨100, 0⟩], []⟩]).bids 100 = 0) ∧
+    ((OrderBook.default.run [.snapshot ⟨1, [], [⟨101, 0⟩]⟩]).asks = [⟨101, 0⟩] ∧
+      (OrderBook.default.run [.snapshot ⟨1, [], [⟨101, 0⟩]⟩]).midPrice = some 101 ∧
+      ∀ q, ((absBook OrderBook.default).run [.snapshot ⟨1, [], [⟨101, 0⟩]⟩]).asks q = 0) :=
+  ⟨⟨dirty_snapshot_duplicate_price_witness.2.2.2.1, dirty_snapshot_duplicate_price_witness.2.2.2.2.1⟩,
+    dirty_snapshot_zero_amount_witness.2.2.1, dirty_snapshot_zero_amount_witness.2.2.2.1,
+    dirty_snapshot_zero_amount_witness.2.2.2.2.1⟩
+
+/-- `NonNegEvents` (and `WFEvents`) are satisfiable by the non-trivial history of the examples
+above, whose update contains deletes (amount 0), and the conclusion of `vwmid_history` is the
+concrete quotient there: best bid `100:1`, best ask `101.5:7`. -/
+example : NonNegEvents [.snapshot exSnap, .update exUpd] := by
+  intro ev h
+  simp only [List.mem_cons, List.not_mem_nil, or_false] at h
+  rcases h with rfl | rfl <;> constructor <;> decide +kernel
+example : (OrderBook.default.run [.snapshot exSnap, .update exUpd]).volumeWeightedMidPrice
+    = some ((100 * 7 + 203/2 * 1) / (1 + 7)) := by decide +kernel
+/-- the hypothesis of `delete_absent_noop'` is satisfiable on a list that is neither ordered nor
+free of duplicates / zero amounts -/
+example : upsertSingle .asks ⟨5, 0⟩ [⟨2, 1⟩, ⟨1, 0⟩, ⟨2, 3⟩] = [⟨2, 1⟩, ⟨1, 0⟩, ⟨2, 3⟩] :=
+  delete_absent_noop' _ _ _ rfl (by decide +kernel)
 
 end BarterModel.Props.C05
